@@ -1,12 +1,322 @@
+/-
+C05 — property theorems (helper lemmas are in Lemmas.lean, counter-examples in Witness.lean).
+
+Statement: for any route configuration and request, the handlers that run and their order are
+exactly those the routing rules prescribe: routes are tried in order, a route applies iff it has
+no matcher sets or at least one set all of whose matchers match, only the first applicable route
+of a group runs, a terminal route ends routing, and handlers chain in listed order with nested
+subroutes following the same rules.  A handler error or matcher error diverts the request to the
+error routes (evaluated by the same rules, with the original URI restored), and a request no
+route answers gets the empty default response.
+
+`serve`/`run*` (Model.lean) is the code as it is: closures receiving "the rest of the chain".
+`eval`/`spec*` (Spec.lean) is the rules written directly.  All theorems are for every route
+tree, every request, every continuation — no size bound.
+-/
 import CaddyModel.C05.Lemmas
+import CaddyModel.C05.Witness
 
 namespace CaddyModel.C05
 
-theorem subroute_same_rules (rs : List Route) (es : List Route) (k : K) (r : Req) (t : Trace) :
-    (∀ t' st r', runRoutes rs k r t ≠ .err t' st r') →
+/-! ## the whole statement -/
+
+/-
+FULL STATEMENT:  ∀ routes hasErrs errs req, serve routes hasErrs errs req = eval routes hasErrs errs req.
+It is FALSE for the code as it is: `Witness.compile_correct_full_fails` (a subroute that has error
+routes catches a failure raised behind it and the rest of the chain runs twice).
+What holds is the statement for every tree in which nothing can fail behind a subroute that has
+error routes (`treeOk`, a decidable syntactic condition — Spec.lean); in particular for every tree
+without subroute-level error routes, whatever else it contains.
+-/
+theorem compile_correct_partial (routes errs : List Route) (hasErrs : Bool) (req : Req)
+    (h : treeOk routes errs = true) :
+    serve routes hasErrs errs req = eval routes hasErrs errs req := by
+  simp only [treeOk, Bool.and_eq_true] at h
+  unfold serve eval
+  rw [rs_ok routes true emptyK _ [] h.1 (fun _ => noErr_emptyK)]
+  cases hp : specRoutes routes { req with groups := [], ctxErr := none } [] with
+  | cont r t => simp [Res.bind, emptyK]
+  | stop o =>
+    cases o with
+    | done t s => simp [Res.bind]
+    | err t st r' =>
+      simp only [Res.bind]
+      split
+      · rw [rs_ok errs true errorEmptyK _ t h.2 (fun _ => noErr_errorEmptyK)]
+        cases specRoutes errs { r' with path := req.path, ctxErr := some st } t with
+        | cont r'' t2 => simp [Res.bind, errorEmptyK]
+        | stop o2 => cases o2 <;> simp [Res.bind]
+      · rfl
+
+-- the hypothesis is met by a tree that has groups, a terminal route, `not`, an error matcher, a
+-- rewrite, a failing handler inside a subroute WITH error routes, and server error routes
+example : treeOk
+    [ .mk 1 [[.atom .path [1, 2], .not [[.atom .method [1]]]]] [.rewrite 1 3, .pass 2] false,
+      .mk 1 [] [.respond 3 200] false,
+      .mk 0 [[.err 0 403, .atom .host [2]]] [.pass 4] true,
+      .mk 0 [] [.sub [.mk 0 [] [.fail 5 500] false] true [.mk 0 [[.atom .path [3]]] [.pass 6] false]] true ]
+    [ .mk 1 [] [.pass 7] false, .mk 0 [[.atom .path [1]]] [.respond 8 404] true ] = true := by decide
+
+/-! ## one theorem per clause (about the code-shaped model, for every tree) -/
+
+/-- **routes are tried in order**: the chain compiled from `rs₁ ++ rs₂` is the chain of `rs₁`
+    whose rest-of-chain is the chain of `rs₂`. -/
+theorem routes_in_order (rs₁ rs₂ : List Route) (k : K) :
+    runRoutes (rs₁ ++ rs₂) k = runRoutes rs₁ (runRoutes rs₂ k) := by
+  induction rs₁ with
+  | nil => simp [runRoutes]
+  | cons rt rs ih => simp [runRoutes, ih]
+
+example : runRoutes ([.mk 0 [] [.pass 1] false] ++ [.mk 0 [] [.pass 2] false]) emptyK wReq []
+    = .done [⟨1, 1, none⟩, ⟨2, 1, none⟩] none := by decide
+
+/-- **a route applies iff it has no matcher sets or at least one set all of whose matchers
+    match** — whenever matching does not end in a matcher error. -/
+theorem applies_iff (sets : List (List Matcher)) (r : Req) (b : Bool) (h : anyMatch sets r = .ok b) :
+    b = true ↔ Applies sets r := by
+  unfold Applies
+  unfold anyMatch at h
+  split at h
+  · rename_i he
+    have : sets = [] := by simpa using he
+    subst this
+    simp at h
+    simp [← h]
+  · rename_i he
+    have hne : sets ≠ [] := by simpa using he
+    rw [evalAny_ok sets r b h]
+    simp [hne, evalSet_true_iff]
+
+example : anyMatch [[.atom .host [1]], [.atom .path [1], .not [[.atom .method [1]]]]] wReq = .ok true := by decide
+example : anyMatch [[.atom .host [1]], [.atom .path [1], .not [[.atom .method [0]]]]] wReq = .ok false := by decide
+
+/-- `not` negates the OR of its sets (each an AND) — whenever no matcher error occurs. -/
+theorem not_is_negated_or_of_ands (sets : List (List Matcher)) (r : Req) (b : Bool)
+    (h : evalMatcher (.not sets) r = .ok b) :
+    b = true ↔ ¬ ∃ s ∈ sets, ∀ m ∈ s, evalMatcher m r = .ok true := by
+  rw [evalMatcher] at h
+  rw [evalNot_ok sets r b h]
+  simp [evalSet_true_iff]
+
+example : evalMatcher (.not [[.atom .host [1]], [.atom .path [1], .atom .method [0]]]) wReq = .ok false := by decide
+
+/-- a route that does not apply has no effect whatsoever (no handler, no group mark, no
+    termination): the request goes on to the rest of the chain unchanged. -/
+theorem inapplicable_route_is_skipped (g : Nat) (sets : List (List Matcher)) (hs : List Handler)
+    (term : Bool) (k : K) (r : Req) (t : Trace) (h : anyMatch sets r = .ok false) :
+    runRoute (.mk g sets hs term) k r t = k r t := by
+  simp [runRoute, h]
+
+example : anyMatch [[.atom .host [1]]] wReq = .ok false := by decide
+
+/-- **only the first applicable route of a group runs** (1): an applicable route whose group is
+    already satisfied is skipped like an inapplicable one. -/
+theorem first_of_group_only (g : Nat) (sets : List (List Matcher)) (hs : List Handler)
+    (term : Bool) (k : K) (r : Req) (t : Trace)
+    (hg : g ≠ 0) (hm : g ∈ r.groups) (h : anyMatch sets r = .ok true) :
+    runRoute (.mk g sets hs term) k r t = k r t := by
+  have : groupDone g r = true := by simp [groupDone, hg, hm]
+  simp [runRoute, h, this]
+
+/-- (2): an applicable route of group `g` whose handlers pass the request on leaves `g`
+    satisfied for everything that follows — nested or not, whatever happens in between. -/
+theorem applicable_grouped_route_marks_group (g : Nat) (sets : List (List Matcher)) (hs : List Handler)
+    (term : Bool) (r r' : Req) (t t' : Trace)
+    (hg : g ≠ 0) (h : anyMatch sets r = .ok true)
+    (hc : specRoute (.mk g sets hs term) r t = .cont r' t') : g ∈ r'.groups := by
+  rw [specRoute] at hc
+  simp only [h] at hc
+  split at hc
+  · rename_i hd
+    cases hc
+    simp [groupDone, hg] at hd
+    exact hd
+  · have hk := specHandlers_keeps hs (markGroup g r) t
+    cases hh : specHandlers hs (markGroup g r) t with
+    | cont r'' t'' =>
+      rw [hh] at hk hc
+      cases term with
+      | true => simp at hc
+      | false =>
+        simp at hc
+        obtain ⟨rfl, rfl⟩ := hc
+        exact hk g (by simp [markGroup, hg])
+    | stop o => rw [hh] at hc; cases hc
+
+/-- (3): the set of satisfied groups only grows along a chain. -/
+theorem groups_only_grow (rs : List Route) (r r' : Req) (t t' : Trace)
+    (hc : specRoutes rs r t = .cont r' t') : ∀ g ∈ r.groups, g ∈ r'.groups := by
+  have := specRoutes_keeps rs r t
+  rw [hc] at this
+  exact this
+
+example : specRoute (.mk 2 [] [.pass 1] false) wReq [] = .cont { wReq with groups := [2] } [⟨1, 1, none⟩] := by decide
+example : runRoutes [.mk 2 [] [.pass 1] false, .mk 2 [] [.pass 2] false, .mk 0 [] [.pass 3] false] emptyK wReq []
+    = .done [⟨1, 1, none⟩, ⟨3, 1, none⟩] none := by decide
+
+/-- **a terminal route ends routing**: once an applicable terminal route is entered, neither the
+    routes after it nor the rest of any enclosing chain can run — the outcome does not depend on
+    them (`termK` only writes the pending error status, if there is one). -/
+theorem terminal_stops (g : Nat) (sets : List (List Matcher)) (hs : List Handler) (rest : List Route)
+    (k : K) (r : Req) (t : Trace) (h : anyMatch sets r = .ok true) (hg : groupDone g r = false) :
+    runRoutes (.mk g sets hs true :: rest) k r t = runHandlers hs (termK r) (markGroup g r) t := by
+  simp [runRoutes, runRoute, h, hg]
+
+example : runRoutes [.mk 0 [] [.pass 1] true, .mk 0 [] [.pass 2] false] emptyK wReq []
+    = .done [⟨1, 1, none⟩] none := by decide
+
+/-- **handlers chain in listed order** (1): the chain of `hs₁ ++ hs₂` is the chain of `hs₁` whose
+    next handler is the chain of `hs₂`. -/
+theorem handlers_chain_in_order (hs₁ hs₂ : List Handler) (k : K) :
+    runHandlers (hs₁ ++ hs₂) k = runHandlers hs₁ (runHandlers hs₂ k) := by
+  induction hs₁ with
+  | nil => simp [runHandlers]
+  | cons h hs ih => simp [runHandlers, ih]
+
+/-- (2): handlers that pass the request on run one after the other, each exactly once. -/
+theorem passing_handlers_run_in_listed_order (ids : List Nat) (k : K) (r : Req) (t : Trace) :
+    runHandlers (ids.map .pass) k r t = k r (t ++ ids.map (ev · r)) := by
+  induction ids generalizing t with
+  | nil => simp [runHandlers]
+  | cons i is ih => simp [runHandlers, runHandler, ih]
+
+example : runHandlers [.pass 1, .rewrite 2 3, .pass 3, .respond 4 201, .pass 5] emptyK wReq []
+    = .done [⟨1, 1, none⟩, ⟨2, 1, none⟩, ⟨3, 3, none⟩, ⟨4, 3, none⟩] (some 201) := by decide
+
+/-- **nested subroutes follow the same rules** (1): a subroute without error routes IS its route
+    list, evaluated by the same function in the same chain. -/
+theorem subroute_same_rules (rs es : List Route) (k : K) (r : Req) (t : Trace) :
     runHandler (.sub rs false es) k r t = runRoutes rs k r t := by
-  intro h
   simp only [runHandler]
-  cases hh : runRoutes rs k r t <;> simp
+  cases runRoutes rs k r t <;> simp
+
+/-- (2): wrapping a server's whole route list into one subroute changes nothing observable. -/
+theorem subroute_wrap_invariant (rs errs : List Route) (hasErrs : Bool) (req : Req) :
+    serve [.mk 0 [] [.sub rs false []] false] hasErrs errs req = serve rs hasErrs errs req := by
+  unfold serve
+  have : ∀ r t, runRoutes [.mk 0 [] [.sub rs false []] false] emptyK r t = runRoutes rs emptyK r t := by
+    intro r t
+    simp only [runRoutes, runRoute, anyMatch, List.isEmpty_nil, if_true, groupDone, markGroup,
+      runHandlers]
+    simp only [bne_self_eq_false, Bool.false_and, Bool.false_eq_true, if_false]
+    exact subroute_same_rules rs [] emptyK r t
+  rw [this]
+
+/-- (3): a subroute WITH error routes: if its chain fails, the error routes are evaluated by the
+    same function, on the request as it is at that moment plus the error — the URI is NOT
+    restored here (see `Witness.subroute_error_routes_see_rewritten_uri`). -/
+theorem subroute_error_routes_same_rules (rs es : List Route) (k : K) (r r' : Req) (t t' : Trace) (st : Nat)
+    (h : runRoutes rs k r t = .err t' st r') :
+    runHandler (.sub rs true es) k r t = runRoutes es k { r' with ctxErr := some st } t' := by
+  simp [runHandler, h]
+
+example : runRoutes [.mk 0 [] [.fail 2 500] false] emptyK wReq [] = .err [⟨2, 1, none⟩] 500 wReq := by decide
+
+/-- **a matcher error diverts**: the route's handlers do not run, nothing after it runs; the error
+    surfaces exactly like a handler error. -/
+theorem matcher_error_diverts (g : Nat) (sets : List (List Matcher)) (hs : List Handler) (term : Bool)
+    (k : K) (r : Req) (t : Trace) (st : Nat) (h : anyMatch sets r = .err st) :
+    runRoute (.mk g sets hs term) k r t = .err t st r := by
+  simp [runRoute, h]
+
+example : anyMatch [[.atom .host [1]], [.atom .path [1], .err 1 403]] wReq = .err 403 := by decide
+
+/-- **errors divert to the error routes, evaluated by the same rules, with the original URI
+    restored**: if the primary chain fails, the result is that of `runRoutes` (the same function)
+    on the error routes, for the request with `path` = the ORIGINAL path and the error in its
+    context; a second failure, or error routes that do not answer, yield the first error's status. -/
+theorem error_diverts_with_original_uri (routes errs : List Route) (req r' : Req) (t : Trace) (st : Nat)
+    (hne : errs ≠ [])
+    (h : runRoutes routes emptyK { req with groups := [], ctxErr := none } [] = .err t st r') :
+    serve routes true errs req =
+      match runRoutes errs errorEmptyK { r' with path := req.path, ctxErr := some st } t with
+      | .done t2 s2 => ⟨t2, s2⟩
+      | .err t2 _ _ => ⟨t2, some (writeStatus (some st))⟩ := by
+  have : errs.isEmpty = false := by cases errs <;> simp_all
+  simp only [serve, h, this, Bool.not_false, Bool.and_self, if_true]
+  generalize runRoutes errs errorEmptyK _ t = o
+  cases o <;> rfl
+
+/-- in particular a handler in the error routes sees the original path and the error, whatever
+    the primary chain rewrote; and if the error routes do not answer, the error's status is sent. -/
+theorem error_route_sees_original_uri_and_error (routes : List Route) (req r' : Req) (t : Trace) (st i : Nat)
+    (h : runRoutes routes emptyK { req with groups := [], ctxErr := none } [] = .err t st r') :
+    serve routes true [.mk 0 [] [.pass i] false] req =
+      ⟨t ++ [⟨i, req.path, some st⟩], some (writeStatus (some st))⟩ := by
+  rw [error_diverts_with_original_uri routes _ req r' t st (by simp) h]
+  simp [runRoutes, runRoute, anyMatch, groupDone, markGroup, runHandlers, runHandler, errorEmptyK, ev]
+
+example : runRoutes [.mk 0 [] [.rewrite 1 3, .fail 2 404] false] emptyK wReq []
+    = .err [⟨1, 1, none⟩, ⟨2, 3, none⟩] 404 { wReq with path := 3 } := by decide
+example : serve [.mk 0 [] [.rewrite 1 3, .fail 2 404] false] true [.mk 0 [] [.pass 7] false] wReq
+    = ⟨[⟨1, 1, none⟩, ⟨2, 3, none⟩, ⟨7, 1, some 404⟩], some 404⟩ := by decide
+
+/-- without error routes the error's status is the response -/
+theorem error_without_error_routes (routes : List Route) (req r' : Req) (t : Trace) (st : Nat)
+    (h : runRoutes routes emptyK { req with groups := [], ctxErr := none } [] = .err t st r') :
+    serve routes false [] req = ⟨t, some (writeStatus (some st))⟩ := by
+  simp [serve, h]
+
+/-- modelled quirk: the group set lives for the whole request, so a group satisfied in the primary
+    chain stays satisfied in the error chain — an error route of that group is skipped. -/
+theorem groups_persist_into_error_chain (routes : List Route) (req r' : Req) (t : Trace) (st g : Nat)
+    (sets : List (List Matcher)) (hs : List Handler) (term : Bool)
+    (h : runRoutes routes emptyK { req with groups := [], ctxErr := none } [] = .err t st r')
+    (hg : g ≠ 0) (hm : g ∈ r'.groups)
+    (ha : anyMatch sets { r' with path := req.path, ctxErr := some st } = .ok true) :
+    serve routes true [.mk g sets hs term] req = ⟨t, some (writeStatus (some st))⟩ := by
+  rw [error_diverts_with_original_uri routes _ req r' t st (by simp) h]
+  simp only [runRoutes]
+  rw [first_of_group_only g sets hs term errorEmptyK _ t hg (by simpa using hm) ha]
+  simp [errorEmptyK]
+
+example : serve [.mk 1 [] [.fail 1 404] false] true [.mk 1 [] [.respond 2 200] false] wReq
+    = ⟨[⟨1, 1, none⟩], some 404⟩ := by decide
+
+/-- **a request no route answers gets the empty default response**: if no route applies, no
+    handler runs and nothing is written. -/
+theorem unanswered_gets_empty_default (routes errs : List Route) (hasErrs : Bool) (req : Req)
+    (h : ∀ g sets hs term, Route.mk g sets hs term ∈ routes →
+      anyMatch sets { req with groups := [], ctxErr := none } = .ok false) :
+    serve routes hasErrs errs req = ⟨[], none⟩ := by
+  have key : ∀ (rs : List Route) (r : Req) (t : Trace),
+      (∀ g sets hs term, Route.mk g sets hs term ∈ rs → anyMatch sets r = .ok false) →
+      runRoutes rs emptyK r t = .done t none := by
+    intro rs
+    induction rs with
+    | nil => intro r t _; simp [runRoutes, emptyK]
+    | cons rt rs ih =>
+      intro r t hh
+      cases rt with
+      | mk g sets hs term =>
+        rw [runRoutes, inapplicable_route_is_skipped g sets hs term _ r t (hh g sets hs term (List.mem_cons_self ..))]
+        exact ih r t (fun g' s' h' t' hm => hh g' s' h' t' (List.mem_cons_of_mem _ hm))
+  simp [serve, key routes _ [] h]
+
+/-- more generally (for trees satisfying `treeOk`): whenever the rules pass the request through
+    all routes, the response is empty, whatever handlers ran on the way. -/
+theorem passed_through_gets_empty_default (routes errs : List Route) (hasErrs : Bool) (req r : Req) (t : Trace)
+    (hok : treeOk routes errs = true)
+    (h : specRoutes routes { req with groups := [], ctxErr := none } [] = .cont r t) :
+    serve routes hasErrs errs req = ⟨t, none⟩ := by
+  rw [compile_correct_partial routes errs hasErrs req hok]
+  simp [eval, h]
+
+example : serve [.mk 0 [[.atom .host [1]]] [.respond 1 200] true, .mk 0 [[.atom .method [1]]] [.pass 2] false] false [] wReq
+    = ⟨[], none⟩ := by decide
+
+/-- matcher sets are built by ranging over a Go map: without matcher errors the order inside a
+    set is irrelevant (with an error matcher it is not: `Witness.matcher_order_matters_with_error`). -/
+theorem matcher_order_irrelevant_without_errors (s s' : List Matcher) (r : Req) (hp : s.Perm s')
+    (h : ∀ m ∈ s, ∀ st, evalMatcher m r ≠ .err st) : evalSet s' r = evalSet s r := by
+  have h' : ∀ m ∈ s', ∀ st, evalMatcher m r ≠ .err st := fun m hm => h m (hp.mem_iff.mpr hm)
+  rw [evalSet_eq_all s r h, evalSet_eq_all s' r h']
+  congr 1
+  exact (hp.all_eq (f := fun m => evalMatcher m r == .ok true)).symm
+
+example : ∀ m ∈ [Matcher.atom .host [0], .not [[.atom .path [2]]]], ∀ st, evalMatcher m wReq ≠ .err st := by
+  intro m hm st
+  simp at hm
+  rcases hm with rfl | rfl <;> exact evalMatcher_noerr _ _ (by decide) st
 
 end CaddyModel.C05
